@@ -280,7 +280,7 @@ theorem other_records_identical (s : State) (f : List Nat) (o : Op) (hs : s.shm.
     (hnw : ¬ writes o v) :
     (∃ f', (step s o).1.file = some f' ∧ record f' v = record f v) ∧
     shmAt (step s o).1 v = shmAt s v := by
-  rcases step_shape s f o hs hf hlen hrec with e | ⟨u, m', hu, hw, e⟩ | ⟨u, r, shm', hu, hw, _, hr, e, hshm⟩
+  rcases step_shape s f o hs hf hlen hrec with e | ⟨u, m', hu, hw, e⟩ | ⟨u, r, shm', hu, hw, _, hr, e, hshm, _⟩
   · rw [e]; exact ⟨⟨f, hf, rfl⟩, rfl⟩
   · rw [e]
     have hne : v ≠ u := by
@@ -392,6 +392,61 @@ theorem syncquery_returns_balance (s : State) (b : Bal) (D : Int → Prop) (u : 
   rw [if_neg (by omega), if_pos hin]
   simp only [moneyOf_valid s u (b u) hu (hshm u hu).1]
   rfl
+
+/-! #### locality: the justification of the per-slot expected image of the concurrent passes -/
+
+/-- after ANY history (money operations, whole-record writes, loads, registrations, on any slots, overflowing or
+not), what the property sees of a valid slot `u` — its SHM entry and its whole record — is what the operations
+ADDRESSED TO `u` alone produce, in their order.  Operations addressed to other slots do not matter, wherever they
+are interleaved. -/
+theorem slot_result_depends_only_on_own_operations (s : State) (os : List Op) (u : Int) (h : WF s)
+    (hrec : ∀ o ∈ os, RecOK o) (hu : Valid u) :
+    slotView (run s os) u = slotView (run s (os.filter fun o => slotOf o = u)) u :=
+  view_projection os u s h hrec hu
+
+/-- hence any two interleavings (at operation granularity) of the same per-slot programs end with the same SHM
+entry and the same record in every valid slot: if every call is atomic, G concurrent writers of G different slots
+must leave exactly the image that each slot's own program leaves — which is what the oracle of the concurrent
+passes compares `.PASSWDS` and SHM with, bystander slots (empty program) included. -/
+theorem interleavings_agree (s : State) (os₁ os₂ : List Op) (h : WF s) (h₁ : ∀ o ∈ os₁, RecOK o)
+    (h₂ : ∀ o ∈ os₂, RecOK o)
+    (hsame : ∀ u, Valid u → (os₁.filter fun o => slotOf o = u) = (os₂.filter fun o => slotOf o = u)) :
+    ∀ u, Valid u → slotView (run s os₁) u = slotView (run s os₂) u := by
+  intro u hu
+  rw [view_projection os₁ u s h h₁ hu, view_projection os₂ u s h h₂ hu, hsame u hu]
+
+/-- a bystander slot (no operation addressed to it) keeps its SHM entry and every byte of its record. -/
+theorem bystander_untouched (s : State) (os : List Op) (u : Int) (h : WF s) (hrec : ∀ o ∈ os, RecOK o)
+    (hu : Valid u) (hby : ∀ o ∈ os, slotOf o ≠ u) : slotView (run s os) u = slotView s u := by
+  rw [view_projection os u s h hrec hu]
+  have : (os.filter fun o => slotOf o = u) = [] := by
+    apply List.filter_eq_nil_iff.2
+    intro o ho
+    simpa using hby o ho
+  rw [this]; rfl
+
+/-- witness for the rule the concurrent passes guard (a whole-record write must put the CALLER's record, stamped
+with the SHM balance of ITS slot, into its slot): if the bytes that reach slot `u` are a record stamped with
+another balance `w` — what a shared encode buffer or a shared file offset produces — `.PASSWDS` and SHM disagree
+on `u`. -/
+theorem foreign_record_breaks_agreement (s : State) (b : Bal) (D : Int → Prop) (f : List Nat) (u w : Int)
+    (rec : List Nat) (h : Agree s b D) (hf : s.file = some f) (hu : Valid u) (hr : rec.length = Gen.Money.recSize)
+    (hw : Int32 w) (hne : w ≠ b u) :
+    diskAt (afterSync s f u (recSetMoney rec w)) u = some w ∧
+    shmAt (afterSync s f u (recSetMoney rec w)) u = some (b u) ∧
+    diskAt (afterSync s f u (recSetMoney rec w)) u ≠ shmAt (afterSync s f u (recSetMoney rec w)) u := by
+  obtain ⟨⟨hs, f0, hf0, hlen⟩, hshm, _⟩ := h
+  have e : f0 = f := by rw [hf] at hf0; exact (Option.some.inj hf0).symm
+  subst e
+  have hl := recSetMoney_length rec w hr
+  have hd : diskAt (afterSync s f0 u (recSetMoney rec w)) u = some w := by
+    unfold diskAt afterSync
+    simp only [Option.bind_some]
+    rw [moneyBytes_afterSync f0 u u _ hlen hl hu hu, if_pos rfl, recSetMoney_money rec w hr, dec32_le32 w hw]
+  refine ⟨hd, (hshm u hu).1, ?_⟩
+  rw [hd, shmAt_afterSync, (hshm u hu).1]
+  intro e
+  exact hne (Option.some.inj e)
 
 /-! #### balances never go negative -/
 
